@@ -11,6 +11,7 @@ from ..prop import V
 GAPS = [0, 0.01, 0.3, 0.99, 1.0, 1.01, 2.5]
 C12_SCHEMES = ["CJJ14.PiBas", "CJJ14.PiPack", "CT14.Pi"]
 SID = "c12" + "ab" * 30 + "c"
+OTHER_SID = "c12" + "ef" * 30 + "d"
 REPLY_TYPES = ("config", "upload_edb", "result")
 
 
@@ -40,7 +41,7 @@ class C12(P.Property):
                    "an unacknowledged request in flight when its connection ends may or may not have been applied"]
     probe_names = ["two_waiters_one_predecessor", "newcomer_during_cleanup", "waiter_closes_before_served", "predecessor_aborted",
                    "request_queued_while_waiting", "overlap_init_state_0", "overlap_init_state_1", "overlap_init_state_2",
-                   "three_overlapping", "overlap_longer_than_20s", "state_file_read_error"]
+                   "three_overlapping", "overlap_longer_than_20s", "state_file_read_error", "other_service_connection"]
 
     def setup(self):
         world.setup_frontend()
@@ -83,7 +84,18 @@ class C12(P.Property):
             n = rng.choice([n for n in scripts if idx[n] < len(scripts[n])])
             steps.append({"actor": n, "do": scripts[n][idx[n]], "gap": rng.choice(gaps)})
             idx[n] += 1
-        knobs = dict(scheme=rng.choice(C12_SCHEMES), init_state=rng.choice([0, 0, 1, 1, 2]),
+        d_first = False
+        if rng.random() < 0.25:
+            # a connection for a *different* service id comes and goes meanwhile (its cleanup holds the manager's shared lock for a second)
+            if rng.random() < 0.5:
+                # it has just left when the first connections of the service under test arrive
+                steps[0:0] = [{"actor": "D", "do": "open", "gap": 0.01}, {"actor": "D", "do": "close", "gap": rng.choice([0.01, 0.1, 0.3, 0.6])}]
+                d_first = True
+            else:
+                pos = sorted(rng.sample(range(len(steps) + 1), 2))
+                steps.insert(pos[0], {"actor": "D", "do": "open", "gap": rng.choice([0, 0.01, 0.3])})
+                steps.insert(pos[1] + 1, {"actor": "D", "do": "close", "gap": rng.choice([0, 0.01, 0.3, 0.99])})
+        knobs = dict(scheme=rng.choice(C12_SCHEMES), init_state=(0 if d_first and rng.random() < 0.7 else rng.choice([0, 0, 1, 1, 2])),
                      net=rng.choice([dict(lo=0.001, hi=0.05), dict(lo=0.001, hi=0.05, seg=3), dict(lo=0.0005, hi=0.004),
                                      dict(lo=0.01, hi=0.3, tail=0.1, seg=2),
                                      dict(lo=0.0, hi=0.0), dict(lo=0.0, hi=0.0, quantum=0.001), dict(lo=0.0005, hi=0.004, quantum=0.002)]),  # no latency / busy loop -- events tie, only the loop's FIFO order decides
@@ -172,7 +184,7 @@ class C12(P.Property):
             try:
                 if do == "open":
                     if a is None:
-                        a = actors[n] = fe.RawActor(run, n, SID)
+                        a = actors[n] = fe.RawActor(run, n, SID if n != "D" else OTHER_SID)
                         run.ev("c_do", n, "open")
                         await a.open(path=(knobs.get("paths") or {}).get(n, ""))
                 elif a is None or not a.opened:
@@ -213,7 +225,7 @@ class C12(P.Property):
         state = pr.init.get("state")
         out["probe_results"] = {}
         if state == 2:
-            uploaders = [x for x in (["P"] if knobs["init_state"] >= 1 else []) + sorted(actors)]
+            uploaders = [x for x in (["P"] if knobs["init_state"] >= 1 else []) + sorted(actors) if x != "D"]
             for n in uploaders:
                 before = len(pr.results)
                 await pr.send("token", acts[n]["tok"], token_digest=b"probe-" + n.encode())
@@ -249,7 +261,11 @@ class C12(P.Property):
         # a connection takes part in the ordering once the server has taken it on (sent its init echo); one that died in the
         # server's constructor (e.g. on an injected read error) was never served nor made to wait
         echoed = {e[1] for e in ev[base:] if e[0] == "s_send" and e[2] == "init"}
-        opens = {c: i for c, i in opens.items() if c in echoed}
+        other_cids = {getattr(getattr(act.ws, "transport", None), "cid", None) for nme, act in out.get("actors", {}).items()
+                      if nme == "D" and act.ws is not None}
+        if other_cids - {None}:
+            probes["other_service_connection"] = 1
+        opens = {c: i for c, i in opens.items() if c in echoed and c not in other_cids}
         conns = sorted(opens, key=opens.get)
         label = {c: "c%d" % k for k, c in enumerate(conns)}
         INF = 10 ** 9
